@@ -52,7 +52,12 @@ def main():
                 out[pid] = (r.returncode, viol, [ln[:300] for ln in r.stdout.splitlines() if ln.startswith("ANALYSIS-ERROR")])
             return out
         base = run_checks()                 # verdicts are relative to the unpatched HEAD
-        subprocess.check_call(["git", "apply", "--directory", tmp, "--unsafe-paths", os.path.abspath(a.patch)], cwd="/")
+        r_apply = subprocess.run(["git", "apply", "--directory", tmp, "--unsafe-paths", os.path.abspath(a.patch)], cwd="/",
+                                 capture_output=True, text=True)
+        if r_apply.returncode != 0:
+            # the context moved (a later fix: commit in /repo): same change, located with fuzz
+            subprocess.check_call(["patch", "-p1", "--fuzz=3", "--no-backup-if-mismatch", "-s", "-i", os.path.abspath(a.patch)], cwd=tmp)
+            res["applied_with_fuzz"] = True
         for pid, (code, viol, errors) in run_checks().items():
             new = {k: v for k, v in viol.items() if k not in base[pid][1]}
             res["checks"][pid] = {"exit": 1 if new else (2 if code == 2 and base[pid][0] != 2 else 0),
